@@ -106,12 +106,16 @@ enum Ev {
     Item(usize), // instance
     End(usize),
     Timer,
+    /// stop the operation (a or b) whose id was NOT carried by the last data/next frame
+    StopOther,
+    /// no event: only the poll of the step
+    Tick,
 }
 
 #[derive(Clone, Debug)]
 struct Step {
     ev: Ev,
-    poll: bool, // poll to quiescence after the event
+    poll: u8, // after the event: 0 no poll, 1 exactly one poll_next, 2 poll to quiescence
 }
 
 const IDS: [&str; 3] = ["a", "b", "c"];
@@ -132,6 +136,7 @@ struct Session {
     trace: Vec<String>,
     text: Vec<String>,
     outs: usize,
+    last_data: Option<usize>,
 }
 
 static NEXT_KEY: AtomicU64 = AtomicU64::new(0);
@@ -182,6 +187,7 @@ fn new_session(schema: &Schema<Q, EmptyMutation, Sub>, reg: &Reg, modern: bool, 
         trace: vec![],
         text: vec![],
         outs: 0,
+        last_data: None,
     }
 }
 
@@ -258,12 +264,15 @@ impl Session {
             Poll::Ready(None) => ("REnd".to_string(), "end".to_string(), None),
             Poll::Ready(Some(m)) => decode(self.modern, m),
         };
+        if g.starts_with("RMsg (OData") || g.starts_with("RMsg (ONext") {
+            self.last_data = choice;
+        }
         let c = match choice {
             Some(i) => format!("(Some {i})"),
             None => "None".into(),
         };
         self.trace.push(format!("(APoll {c}, ObsPoll {k}%nat ({g}))"));
-        if !matches!(res, Poll::Pending) || k > 0 {
+        if !matches!(res, Poll::Pending) || k > 0 || true {
             self.text.push(if k > 0 { format!("<{txt} read{k}>") } else { format!("<{txt}>") });
         }
         match res {
@@ -297,6 +306,18 @@ impl Session {
 
     fn apply(&mut self, ev: &Ev, rng: &mut Rng) {
         let m = self.modern;
+        let resolved;
+        let ev = match ev {
+            Ev::Tick => return,
+            Ev::StopOther => {
+                resolved = Ev::Stop(match self.last_data {
+                    Some(0) => 1,
+                    _ => 0,
+                });
+                &resolved
+            }
+            e => e,
+        };
         let (g, txt): (String, String) = match ev {
             Ev::Init => {
                 self.send(r#"{"type":"connection_init","payload":{}}"#.into());
@@ -381,6 +402,7 @@ impl Session {
                 }
                 ("ETimer".into(), "timer".into())
             }
+            Ev::StopOther | Ev::Tick => unreachable!(),
         };
         let _ = rng;
         self.trace.push(format!("(AEnv ({g}), ObsEnv)"));
@@ -392,8 +414,12 @@ fn run_script(schema: &Schema<Q, EmptyMutation, Sub>, reg: &Reg, modern: bool, k
     let mut s = new_session(schema, reg, modern, ka);
     for st in script {
         s.apply(&st.ev, rng);
-        if st.poll {
-            s.quiesce();
+        match st.poll {
+            1 => {
+                s.poll_once();
+            }
+            2 => s.quiesce(),
+            _ => {}
         }
     }
     s.quiesce();
@@ -438,6 +464,7 @@ const ALPHA: [Sym; 15] = [
 ];
 
 fn concretise(syms: &[Sym], polls: &dyn Fn(usize) -> bool) -> Vec<Step> {
+    let polls = |j: usize| if polls(j) { 2u8 } else { 0u8 };
     let mut insts = 0usize;
     let mut out = vec![];
     for (j, s) in syms.iter().enumerate() {
@@ -477,10 +504,14 @@ fn random_script(r: &mut Rng) -> Vec<Step> {
     // mostly well-behaved prefix
     let polite = r.chance(3, 4);
     let batchy = r.chance(1, 3);
+    // single-step style: most polls are exactly one poll_next, so that frames
+    // and events arrive while other streams are still ready
+    let stepper = r.chance(1, 3);
     if polite {
-        out.push(Step { ev: Ev::Init, poll: !batchy || r.chance(1, 2) });
+        let p0 = !batchy || r.chance(1, 2);
+        out.push(Step { ev: Ev::Init, poll: if p0 { 2 } else { 0 } });
         if r.chance(9, 10) {
-            out.push(Step { ev: Ev::InitDone(r.chance(9, 10)), poll: true });
+            out.push(Step { ev: Ev::InitDone(r.chance(9, 10)), poll: 2 });
         }
     }
     for _ in 0..len {
@@ -513,8 +544,20 @@ fn random_script(r: &mut Rng) -> Vec<Step> {
         } else {
             Ev::Eof
         };
-        let poll = if batchy { r.chance(1, 3) } else { r.chance(9, 10) };
+        let poll: u8 = if stepper {
+            [0u8, 0, 1, 1, 1, 2][r.below(6)]
+        } else if batchy {
+            if r.chance(1, 3) { 2 } else { 0 }
+        } else if r.chance(9, 10) {
+            2
+        } else {
+            0
+        };
+        let ev = if stepper && r.chance(1, 8) { Ev::StopOther } else { ev };
         out.push(Step { ev, poll });
+        if stepper && r.chance(1, 4) {
+            out.push(Step { ev: Ev::Tick, poll: 1 });
+        }
     }
     out
 }
@@ -531,8 +574,9 @@ fn main() {
         writeln!(out, "CASE\t{term}\t{{\"text\":{},\"nontrivial\":{}}}", jstr(&text), nontrivial).unwrap();
         reg.lock().unwrap().clear();
     };
-    let p = |ev: Ev| Step { ev, poll: true };
-    let np = |ev: Ev| Step { ev, poll: false };
+    let p = |ev: Ev| Step { ev, poll: 2 };
+    let np = |ev: Ev| Step { ev, poll: 0 };
+    let p1 = |ev: Ev| Step { ev, poll: 1 };
     // fixed corpus: witnesses of the known findings and boundary conversations
     let corpus: Vec<Vec<Step>> = vec![
         // duplicate live id
@@ -560,6 +604,17 @@ fn main() {
         vec![p(Ev::Init), np(Ev::Timer), p(Ev::Pong), p(Ev::InitDone(true))],
         vec![p(Ev::Init), p(Ev::InitDone(true)), p(Ev::Terminate), p(Ev::Start(0))],
         vec![p(Ev::Init), p(Ev::InitDone(true)), p(Ev::Start(0)), p(Ev::Eof), p(Ev::Item(0)), p(Ev::Timer)],
+        // two streams ready in the same poll, one frame taken, then the client stops the other operation:
+        // after its complete nothing may carry the stopped id
+        vec![p(Ev::Init), p(Ev::InitDone(true)), p(Ev::Start(0)), p(Ev::Start(1)), np(Ev::Item(0)), p1(Ev::Item(1)),
+             p1(Ev::StopOther), p1(Ev::Tick), p(Ev::Tick)],
+        vec![p(Ev::Init), p(Ev::InitDone(true)), p(Ev::Start(0)), p(Ev::Start(1)), np(Ev::Item(0)), np(Ev::Item(1)), np(Ev::Item(0)),
+             p1(Ev::Item(1)), p1(Ev::Stop(0)), p1(Ev::Tick), p1(Ev::Stop(1)), p(Ev::Tick)],
+        // same with a replaced id and with an ended stream among the ready ones
+        vec![p(Ev::Init), p(Ev::InitDone(true)), p(Ev::Start(0)), p(Ev::Start(1)), np(Ev::Item(0)), np(Ev::Item(1)),
+             p1(Ev::End(0)), p1(Ev::Start(1)), p1(Ev::Item(2)), p1(Ev::StopOther), p(Ev::Tick)],
+        vec![p(Ev::Init), p(Ev::InitDone(true)), p(Ev::Start(0)), p(Ev::Start(1)), p(Ev::Start(2)), np(Ev::Item(0)), np(Ev::Item(1)),
+             p1(Ev::Item(2)), p1(Ev::Stop(0)), p1(Ev::Stop(1)), p1(Ev::Stop(2)), p(Ev::Tick)],
     ];
     for sc in &corpus {
         for modern in [false, true] {
@@ -622,6 +677,27 @@ fn main() {
             let sc = concretise(&syms, &|j| !batch || j < 2);
             emit(&mut out, code % 4 < 2, false, &sc, &mut rng);
             n += 1;
+        }
+    }
+    // multi-ready, single-step: after an acknowledged handshake with operations a and b running,
+    // all sequences over {item a, item b, end a, stop a, stop b, one poll}, no implicit polls
+    {
+        let alpha = [Ev::Item(0), Ev::Item(1), Ev::End(0), Ev::Stop(0), Ev::Stop(1), Ev::Tick];
+        let maxlen = if thorough { 5 } else { 4 };
+        for len in 2..=maxlen {
+            let total = alpha.len().pow(len as u32);
+            for code in 0..total {
+                let mut c = code;
+                let mut sc = vec![p(Ev::Init), p(Ev::InitDone(true)), p(Ev::Start(0)), p(Ev::Start(1))];
+                for _ in 0..len {
+                    let ev = alpha[c % alpha.len()].clone();
+                    c /= alpha.len();
+                    let poll = if ev == Ev::Tick { 1 } else { 0 };
+                    sc.push(Step { ev, poll });
+                }
+                emit(&mut out, code % 2 == 0, false, &sc, &mut rng);
+                n += 1;
+            }
         }
     }
     // random longer scripts
